@@ -1771,4 +1771,842 @@ example : ∃ b, buildText (fun s => s.map Char.toLower) (fun _ => none) textSam
       ['(','D','e','f','/','A',',','I','n','s','e','t',',','(','R','e','d',')',')'] :=
   ⟨⟨[8, 16], [⟨0, 0, some 1, ['a'], 0⟩], [[], [2]]⟩, by rfl, by rfl, by rfl, by rfl, by rfl⟩
 
+/-! ## refinement: the manager's ongoing Onset processes are the validator's open set (C10) -/
+
+/-- C10's open-scope set after the time points up to and including time `τ`
+(`OnsetValidator._onsets` after validating them in order) -/
+def validatorOpen (fold : Str → Str) (tps : List Temporal.TRow) (τ : Int) : List Str :=
+  ((tps.filter fun r => decide (r.time ≤ τ)).map (·.markers)).foldl
+    (fun op ms => (Temporal.stepPoint fold op ms).1) []
+
+/-- kind of the last Onset/Offset marker of the folded name `k` -/
+def lastNI (fold : Str → Str) (k : Str) : List Temporal.Marker → Option Temporal.MKind
+  | [] => none
+  | m :: ms =>
+    match lastNI fold k ms with
+    | some x => some x
+    | none => if notInset m && fold m.name == k then some m.kind else none
+
+/-- the Onset/Offset markers of the history up to and including time `τ` -/
+def markersUpTo (τ : Int) (H : List (Int × Item)) : List Temporal.Marker :=
+  (H.filter fun p => decide (p.1 ≤ τ)).filterMap fun p => markNI p.2
+
+theorem lastNI_filter (fold : Str → Str) (k : Str) (ms : List Temporal.Marker) :
+    lastNI fold k (ms.filter notInset) = lastNI fold k ms := by
+  induction ms with
+  | nil => rfl
+  | cons m rest ih =>
+    by_cases hm : notInset m = true
+    · simp [List.filter_cons, hm, lastNI, ih]
+    · simp [List.filter_cons, hm, lastNI, ih]
+      cases lastNI fold k rest <;> rfl
+
+theorem markersUpTo_nil_of_gt {τ : Int} {H : List (Int × Item)} (h : ∀ x ∈ H, τ < x.1) :
+    markersUpTo τ H = [] := by
+  have : H.filter (fun p => decide (p.1 ≤ τ)) = [] := by
+    rw [List.filter_eq_nil_iff]
+    intro x hx
+    have := h x hx
+    simp; omega
+  simp [markersUpTo, this]
+
+theorem markersUpTo_cons (τ : Int) (t : Int) (it : Item) (H : List (Int × Item)) (h : t ≤ τ) :
+    markersUpTo τ ((t, it) :: H) = (match markNI it with | some m => [m] | none => []) ++ markersUpTo τ H := by
+  simp only [markersUpTo, List.filter_cons, h, decide_true, if_true, List.filterMap_cons]
+  cases markNI it <;> rfl
+
+theorem nextTime_mem {fold : Str → Str} {k : Str} {H : List (Int × Item)} {t : Int}
+    (h : nextTime fold k H = some t) : ∃ x ∈ H, x.1 = t := by
+  induction H with
+  | nil => simp [nextTime] at h
+  | cons x xs ih =>
+    obtain ⟨t', it⟩ := x
+    simp only [nextTime] at h
+    split at h
+    · injection h with h; exact ⟨_, List.mem_cons_self .., h⟩
+    · obtain ⟨y, hy, e⟩ := ih h; exact ⟨y, List.mem_cons_of_mem _ hy, e⟩
+
+theorem markNI_key (fold : Str → Str) (it : Item) (k : Str) :
+    (markerKey fold it = some k) ↔ ∃ m, markNI it = some m ∧ fold m.name = k := by
+  cases it <;> simp [markerKey, markNI]
+
+theorem markNI_notInset {it : Item} {m : Temporal.Marker} (h : markNI it = some m) : notInset m = true := by
+  cases it <;> simp [markNI] at h <;> subst h <;> rfl
+
+/-- "the process is not ended by time `τ`" = "no marker of its name up to `τ`" -/
+theorem ltInf_next_iff (fold : Str → Str) (k : Str) (τ : Int) (H : List (Int × Item))
+    (hs : H.Pairwise (fun a b => a.1 ≤ b.1)) :
+    ltInf τ (nextTime fold k H) = true ↔ lastNI fold k (markersUpTo τ H) = none := by
+  induction H with
+  | nil => simp [nextTime, ltInf, markersUpTo, lastNI]
+  | cons x xs ih =>
+    obtain ⟨t, it⟩ := x
+    rw [List.pairwise_cons] at hs
+    by_cases ht : t ≤ τ
+    · rw [markersUpTo_cons _ _ _ _ ht]
+      simp only [nextTime]
+      by_cases hk : markerKey fold it = some k
+      · obtain ⟨m, hm, hmk⟩ := (markNI_key fold it k).1 hk
+        simp only [hk, if_true, ltInf, hm, List.cons_append, List.nil_append, lastNI, markNI_notInset hm,
+          hmk, BEq.rfl, Bool.and_self, if_true]
+        constructor
+        · intro h; simp at h; omega
+        · intro h; cases hl : lastNI fold k (markersUpTo τ xs) <;> simp [hl] at h
+      · simp only [hk, if_false]
+        rw [ih hs.2]
+        cases hm : markNI it with
+        | none => rfl
+        | some m =>
+          have hne : ¬ fold m.name = k := fun e => hk ((markNI_key fold it k).2 ⟨m, hm, e⟩)
+          simp only [List.cons_append, List.nil_append, lastNI]
+          cases hl : lastNI fold k (markersUpTo τ xs) with
+          | some x => simp
+          | none => simp [hne]
+    · have hgt : ∀ y ∈ ((t, it) :: xs), τ < y.1 := by
+        intro y hy
+        rcases List.mem_cons.1 hy with rfl | hy
+        · simp; omega
+        · have := hs.1 y hy; simp at this; omega
+      rw [markersUpTo_nil_of_gt hgt]
+      simp only [lastNI, iff_true]
+      cases hn : nextTime fold k ((t, it) :: xs) with
+      | none => rfl
+      | some t' =>
+        obtain ⟨y, hy, e⟩ := nextTime_mem hn
+        have := hgt y hy
+        simp [ltInf]; omega
+
+theorem specProcs_start_mem {fold : Str → Str} {ts : List Int} {H : List (Int × Item)} {q : SProc}
+    (h : q ∈ specProcs fold ts H) : ∃ x ∈ H, q.start = x.1 := by
+  induction H with
+  | nil => simp [specProcs] at h
+  | cons x xs ih =>
+    obtain ⟨t, it⟩ := x
+    cases it <;> simp only [specProcs, List.mem_cons] at h
+    · rcases h with rfl | h
+      · exact ⟨_, List.mem_cons_self .., rfl⟩
+      · obtain ⟨y, hy, e⟩ := ih h; exact ⟨y, List.mem_cons_of_mem _ hy, e⟩
+    · obtain ⟨y, hy, e⟩ := ih h; exact ⟨y, List.mem_cons_of_mem _ hy, e⟩
+    · rcases h with rfl | h
+      · exact ⟨_, List.mem_cons_self .., rfl⟩
+      · obtain ⟨y, hy, e⟩ := ih h; exact ⟨y, List.mem_cons_of_mem _ hy, e⟩
+    · obtain ⟨y, hy, e⟩ := ih h; exact ⟨y, List.mem_cons_of_mem _ hy, e⟩
+    · obtain ⟨y, hy, e⟩ := ih h; exact ⟨y, List.mem_cons_of_mem _ hy, e⟩
+
+theorem mem_ongoingKeys {ps : List SProc} {τ : Int} {k : Str} :
+    k ∈ ongoingKeys ps τ ↔ ∃ q ∈ ps, q.start ≤ τ ∧ ltInf τ q.stop = true ∧ q.key = some k := by
+  simp [ongoingKeys, List.mem_filterMap, List.mem_filter, and_assoc]
+
+/-- the look-ahead description of the statement, read as "the last marker of the name is an Onset" -/
+theorem ongoing_iff_last_onset (fold : Str → Str) (ts : List Int) (k : Str) (τ : Int) (H : List (Int × Item))
+    (hs : H.Pairwise (fun a b => a.1 ≤ b.1)) :
+    k ∈ ongoingKeys (specProcs fold ts H) τ ↔ lastNI fold k (markersUpTo τ H) = some .onset := by
+  induction H with
+  | nil => simp [ongoingKeys, specProcs, markersUpTo, lastNI]
+  | cons x xs ih =>
+    obtain ⟨t, it⟩ := x
+    rw [List.pairwise_cons] at hs
+    by_cases ht : t ≤ τ
+    · rw [markersUpTo_cons _ _ _ _ ht]
+      have ih' := ih hs.2
+      have hnext := ltInf_next_iff fold k τ xs hs.2
+      rw [mem_ongoingKeys] at ih' ⊢
+      cases it with
+      | onset name c =>
+        simp only [specProcs, markNI, List.cons_append, List.nil_append, lastNI, List.mem_cons, exists_eq_or_imp]
+        have hni : notInset (⟨.onset, name⟩ : Temporal.Marker) = true := rfl
+        simp only [hni, Bool.true_and]
+        rw [ih']
+        by_cases hk : fold name = k
+        · subst hk
+          simp only [ht, true_and, hnext, BEq.rfl, if_true, Option.some.injEq]
+          cases hl : lastNI fold (fold name) (markersUpTo τ xs) with
+          | none => simp
+          | some x => simp
+        · have hk' : (fold name == k) = false := by simpa using hk
+          simp only [Option.some.injEq, hk, and_false, false_or, hk']
+          cases hl : lastNI fold k (markersUpTo τ xs) <;> simp
+      | offset name =>
+        simp only [specProcs, markNI, List.cons_append, List.nil_append, lastNI]
+        rw [ih']
+        cases hl : lastNI fold k (markersUpTo τ xs) with
+        | some x => simp
+        | none =>
+          simp only [false_iff]
+          split <;> simp
+      | duration len c =>
+        simp only [specProcs, markNI, List.nil_append, List.mem_cons, exists_eq_or_imp]
+        rw [← ih']
+        simp
+      | plain c =>
+        simp only [specProcs, markNI, List.nil_append]
+        exact ih'
+      | inset nm c =>
+        simp only [specProcs, markNI, List.nil_append]
+        exact ih'
+    · have hgt : ∀ y ∈ ((t, it) :: xs), τ < y.1 := by
+        intro y hy
+        rcases List.mem_cons.1 hy with rfl | hy
+        · simp; omega
+        · have := hs.1 y hy; simp at this; omega
+      rw [markersUpTo_nil_of_gt hgt, mem_ongoingKeys]
+      simp only [lastNI, reduceCtorEq, iff_false, not_exists, not_and]
+      intro q hq hle
+      obtain ⟨y, hy, e⟩ := specProcs_start_mem hq
+      have := hgt y hy
+      omega
+
+theorem mem_insertKey {op : List Str} {k k' : Str} :
+    k' ∈ Temporal.insertKey op k ↔ k' = k ∨ k' ∈ op := by
+  unfold Temporal.insertKey
+  split
+  · rename_i hc
+    have : k ∈ op := by simpa using hc
+    constructor
+    · exact Or.inr
+    · rintro (rfl | h') <;> assumption
+  · simp
+
+theorem nodup_insertKey {op : List Str} {k : Str} (h : op.Nodup) : (Temporal.insertKey op k).Nodup := by
+  unfold Temporal.insertKey
+  split
+  · exact h
+  · rename_i hc
+    exact List.nodup_cons.2 ⟨by simpa using hc, h⟩
+
+/-- C10's machine, read the same way: after an error-free run a name is open iff its last marker is an Onset -/
+theorem seqOp_iff_last_onset (fold : Str → Str) (k : Str) (ms : List Temporal.Marker) (op : List Str)
+    (hn : op.Nodup) (hok : seqOK fold op ms) :
+    (k ∈ seqOp fold op ms ↔ lastNI fold k ms = some .onset ∨ (lastNI fold k ms = none ∧ k ∈ op)) ∧
+    (seqOp fold op ms).Nodup := by
+  induction ms generalizing op with
+  | nil => simp [seqOp, lastNI, hn]
+  | cons m rest ih =>
+    obtain ⟨kind, name⟩ := m
+    simp only [seqOK] at hok
+    simp only [seqOp, lastNI]
+    cases kind with
+    | onset =>
+      have := ih (Temporal.insertKey op (fold name)) (nodup_insertKey hn) (by simpa [Temporal.handle] using hok.2)
+      simp only [Temporal.handle]
+      refine ⟨?_, this.2⟩
+      rw [this.1, mem_insertKey]
+      have hni : notInset (⟨.onset, name⟩ : Temporal.Marker) = true := rfl
+      cases hl : lastNI fold k rest with
+      | some x => simp
+      | none =>
+        by_cases hk : fold name = k
+        · simp [hni, hk]
+        · have hk2 : ¬ k = fold name := fun e => hk e.symm
+          simp [hni, hk, hk2]
+    | offset =>
+      by_cases hmem : fold name ∈ op
+      · rw [handle_offset_mem hmem] at hok ⊢
+        have := ih (op.erase (fold name)) (hn.erase _) hok.2
+        refine ⟨?_, this.2⟩
+        rw [this.1, hn.mem_erase_iff]
+        have hni : notInset (⟨.offset, name⟩ : Temporal.Marker) = true := rfl
+        cases hl : lastNI fold k rest with
+        | some x => simp
+        | none =>
+          by_cases hk : fold name = k
+          · simp [hni, hk]
+          · have hk2 : ¬ k = fold name := fun e => hk e.symm
+            simp [hni, hk, hk2]
+      · exact absurd hok.1 (handle_offset_not hmem)
+    | inset =>
+      have hh : (Temporal.handle op .inset (fold name)).1 = op := by
+        simp only [Temporal.handle]; split <;> rfl
+      rw [hh] at hok ⊢
+      have := ih op hn hok.2
+      refine ⟨?_, this.2⟩
+      rw [this.1]
+      have hni : notInset (⟨.inset, name⟩ : Temporal.Marker) = false := rfl
+      cases hl : lastNI fold k rest <;> simp [hni]
+
+theorem run_prefix (fold : Str → Str) (a b : List (List Temporal.Marker)) (op : List Str) (t : Nat)
+    (h : Temporal.run fold op t (a ++ b) = []) : Temporal.run fold op t a = [] := by
+  induction a generalizing op t with
+  | nil => rfl
+  | cons ms rest ih =>
+    simp only [List.cons_append, Temporal.run, List.append_eq_nil_iff, List.map_eq_nil_iff] at h ⊢
+    exact ⟨h.1, ih _ _ h.2⟩
+
+theorem open_fold (fold : Str → Str) (a : List (List Temporal.Marker)) (op : List Str) (t : Nat)
+    (h : Temporal.run fold op t a = []) :
+    a.foldl (fun op ms => (Temporal.stepPoint fold op ms).1) op = seqOp fold op a.flatten ∧
+    seqOK fold op a.flatten := by
+  induction a generalizing op t with
+  | nil => simp [seqOp, seqOK]
+  | cons ms rest ih =>
+    simp only [Temporal.run, List.append_eq_nil_iff, List.map_eq_nil_iff] at h
+    have hg := go_ok fold ms (op, []) 0 h.1
+    have := ih _ _ h.2
+    have hsp : (Temporal.stepPoint fold op ms).1 = seqOp fold op ms := hg.2
+    have hcomp : ∀ (x y : List Temporal.Marker) (o : List Str), seqOp fold o (x ++ y) = seqOp fold (seqOp fold o x) y := by
+      intro x
+      induction x with
+      | nil => intros; rfl
+      | cons m xs ihx => intro y o; simp only [List.cons_append, seqOp, ihx]
+    simp only [List.foldl_cons, List.flatten_cons, hcomp, seqOK_append, hsp]
+    rw [← hsp]
+    exact ⟨this.1, hg.1, this.2⟩
+
+theorem filter_split {α : Type} (key : α → Int) (τ : Int) (l : List α)
+    (h : l.Pairwise (fun a b => key a ≤ key b)) :
+    l = (l.filter fun a => decide (key a ≤ τ)) ++ (l.filter fun a => !decide (key a ≤ τ)) := by
+  induction l with
+  | nil => rfl
+  | cons x xs ih =>
+    rw [List.pairwise_cons] at h
+    by_cases hx : key x ≤ τ
+    · simp only [List.filter_cons, hx, decide_true, if_true, Bool.not_true, Bool.false_eq_true, if_false,
+        List.cons_append]
+      rw [← ih h.2]
+    · have h1 : xs.filter (fun a => decide (key a ≤ τ)) = [] := by
+        rw [List.filter_eq_nil_iff]
+        intro y hy
+        have := h.1 y hy
+        simp; omega
+      have h2 : xs.filter (fun a => !decide (key a ≤ τ)) = xs := by
+        rw [List.filter_eq_self]
+        intro y hy
+        have := h.1 y hy
+        simp; omega
+      simp [List.filter_cons, hx, h1, h2]
+
+theorem rowActs_time_filter (τ : Int) (i : Nat) (r : FRow) :
+    (rowActs i r).filter (fun a => decide (a.time ≤ τ)) = if r.time ≤ τ then rowActs i r else [] := by
+  by_cases h : r.time ≤ τ
+  · simp only [h, if_true]
+    rw [List.filter_eq_self]
+    intro a ha
+    simp [(mem_rowActs ha).2.1, h]
+  · simp only [h, if_false]
+    rw [List.filter_eq_nil_iff]
+    intro a ha
+    simp [(mem_rowActs ha).2.1, h]
+
+theorem markersUpTo_acts (τ : Int) (k : Nat) (l : List FRow) :
+    markersUpTo τ (timed (actsFrom k l)) =
+      l.flatMap (fun r => if r.time ≤ τ then r.items.filterMap markNI else []) := by
+  have key : ∀ acts : List Act, markersUpTo τ (timed acts) =
+      markerSeq (acts.filter fun a => decide (a.time ≤ τ)) := by
+    intro acts
+    induction acts with
+    | nil => rfl
+    | cons a as ih =>
+      simp only [markersUpTo, timed, markerSeq, List.map_cons, List.filter_cons] at ih ⊢
+      split <;> simp [List.filterMap_cons, ih]
+  rw [key]
+  induction l generalizing k with
+  | nil => rfl
+  | cons r rs ih =>
+    have happ : ∀ a b : List Act, markerSeq (a ++ b) = markerSeq a ++ markerSeq b := by
+      intro a b; simp [markerSeq, List.filterMap_append]
+    simp only [actsFrom, List.filter_append, happ, rowActs_time_filter, ih, List.flatMap_cons]
+    split
+    · rw [rowActs_markers]
+    · rfl
+
+theorem firstRows_flatMap_row {β : Type} (g : FRow → List β) (hg : ∀ t, g ⟨t, []⟩ = []) (prev : Option Int)
+    (l : List FRow) : (merge prev l).flatMap g = (firstRows prev (merge prev l)).flatMap g := by
+  induction l generalizing prev with
+  | nil => rfl
+  | cons r rs ih =>
+    simp only [merge, firstRows]
+    by_cases e : prev = some r.time
+    · simp [e, hg, ih]
+    · simp [e, ih]
+
+/-- the history sorted by time -/
+theorem history_sorted (rows : List Row) : (timed (history rows)).Pairwise (fun a b => a.1 ≤ b.1) := by
+  have hs := frame_sorted rows
+  have hf := acts_first rows
+  have h1 : (history rows).Pairwise (fun a b => a.time ≤ b.time) := by
+    refine List.Pairwise.imp_of_mem ?_ (actsFrom_idx_sorted 0 _)
+    intro a c ha hc hle
+    exact sorted_idx hs hle (hf a ha).1 (hf c hc).1
+  exact List.pairwise_map.2 h1
+
+/-- **refinement (C10 ⊑ C20).** For every file with non-decreasing onsets that C10's temporal machine accepts
+without error, the manager is constructed, and at every time `τ` the folded names of the Onset processes that
+are ongoing after `τ` (started at or before `τ`, not ended by then — the processes `merged_rows` shows at the
+later rows of that time point, and one time point later `context_spec` shows those not closed there) are
+exactly C10's open set after the time points up to `τ`. -/
+theorem context_eq_validator_open_set (fold : Str → Str) (rows : List Row)
+    (hord : nonDecreasing (rows.map (·.time)) = true)
+    (hT : Temporal.run fold [] 0 ((Temporal.timePoints (rows.map toT)).map (·.markers)) = []) :
+    ∃ b, build fold rows = .ok b ∧
+      ∀ τ k, k ∈ ongoingKeys (spec fold rows b) τ ↔ k ∈ validatorOpen fold (Temporal.timePoints (rows.map toT)) τ := by
+  obtain ⟨b, hb⟩ := valid_history_never_rejected fold rows hord hT
+  refine ⟨b, hb, fun τ k => ?_⟩
+  rw [ongoing_iff_last_onset fold b.ts k τ _ (history_sorted rows)]
+  -- the validator side
+  have hsort : (Temporal.timePoints (rows.map toT)).Pairwise (fun a b => a.time ≤ b.time) := by
+    have := C10.effTimes_increasing (rows.map toT)
+    rw [C10.effTimes, List.pairwise_map] at this
+    exact this.imp (fun h => Int.le_of_lt h)
+  have hsplit := filter_split (fun r : Temporal.TRow => r.time) τ _ hsort
+  rw [hsplit, List.map_append] at hT
+  have hpre := run_prefix fold _ _ [] 0 hT
+  obtain ⟨hfold, hok⟩ := open_fold fold _ [] 0 hpre
+  unfold validatorOpen
+  rw [hfold, (seqOp_iff_last_onset fold k _ [] List.nodup_nil hok).1]
+  simp only [List.not_mem_nil, and_false, or_false]
+  -- both marker sequences are the same
+  have hfr := frame_is_timepoints rows
+  have h1 : ((Temporal.timePoints (rows.map toT)).filter fun r => decide (r.time ≤ τ)).map (·.markers) =
+      ((firstRows none (merge none (frame rows))).filter fun r => decide (r.time ≤ τ)).map
+        (fun r => markersOf r.items) := by
+    have e1 : ∀ l : List Temporal.TRow, (l.filter fun r => decide (r.time ≤ τ)).map (·.markers) =
+        ((l.map fun tp => (tp.time, tp.markers)).filter fun p => decide (p.1 ≤ τ)).map Prod.snd := by
+      intro l; induction l with
+      | nil => rfl
+      | cons x xs ih => simp only [List.filter_cons, List.map_cons]; split <;> simp [ih]
+    have e2 : ∀ l : List FRow, (l.filter fun r => decide (r.time ≤ τ)).map (fun r => markersOf r.items) =
+        ((l.map fun r => (r.time, markersOf r.items)).filter fun p => decide (p.1 ≤ τ)).map Prod.snd := by
+      intro l; induction l with
+      | nil => rfl
+      | cons x xs ih => simp only [List.filter_cons, List.map_cons]; split <;> simp [ih]
+    rw [e1, e2, hfr]
+  rw [h1, ← lastNI_filter fold k (List.flatten _)]
+  have h2 : markersUpTo τ (timed (history rows)) =
+      (((firstRows none (merge none (frame rows))).filter fun r => decide (r.time ≤ τ)).map
+        (fun r => markersOf r.items)).flatten.filter notInset := by
+    rw [history, markersUpTo_acts, firstRows_flatMap_row _ (by intro t; simp)]
+    generalize firstRows none (merge none (frame rows)) = L
+    induction L with
+    | nil => rfl
+    | cons r rs ih =>
+      by_cases h : r.time ≤ τ
+      · simp [List.flatMap_cons, List.filter_cons, h, List.filter_append, markersOf_filter, ih]
+      · simp [List.flatMap_cons, List.filter_cons, h, ih]
+  rw [h2]
+
+/-! ### … and what the manager does with files the validator rejects -/
+
+/-- one step of the scan against one step of C10's machine: either both go on with matching dictionaries, or
+the group is an Offset whose folded name is not a key of `onset_dict` — the guard of `onset_dict.pop(anchor)` —
+and the scan raises (`KeyError`) -/
+theorem step_keys (fold : Str → Str) (ts : List Int) (st : State) (op : List Str) (a : Act)
+    (hk : Keys op st.opn) :
+    (∃ st1, step fold ts st a = .ok st1 ∧ Keys (seqOp fold op (markerSeq [a])) st1.opn ∧
+        seqOK fold op (markerSeq [a])) ∨
+    (step fold ts st a = .error .unmatchedOffset ∧ ¬ seqOK fold op (markerSeq [a]) ∧
+        ∃ name, a.item = .offset name ∧ fold name ∉ op) := by
+  cases hitem : a.item with
+  | onset name c =>
+    left
+    simp only [markerSeq, List.filterMap_cons, List.filterMap_nil, hitem, markNI, seqOK, seqOp, Temporal.handle,
+      step, and_true]
+    refine ⟨_, rfl, ⟨nodup_insertKey hk.1, ?_⟩⟩
+    intro k'
+    rw [mem_insertKey, hk.2]
+    simp only [List.mem_cons, Prod.mk.injEq, closeIfOpen_mem]
+    constructor
+    · rintro (rfl | ⟨j, hj⟩)
+      · exact ⟨_, Or.inl ⟨rfl, rfl⟩⟩
+      · by_cases e : k' = fold name
+        · exact ⟨_, Or.inl ⟨e, rfl⟩⟩
+        · exact ⟨j, Or.inr ⟨hj, e⟩⟩
+    · rintro ⟨j, (⟨e, _⟩ | ⟨hj, _⟩)⟩
+      · exact Or.inl e
+      · exact Or.inr ⟨j, hj⟩
+  | offset name =>
+    simp only [markerSeq, List.filterMap_cons, List.filterMap_nil, hitem, markNI, seqOK, seqOp, and_true]
+    by_cases hmem : fold name ∈ op
+    · left
+      rw [handle_offset_mem hmem]
+      obtain ⟨j, hj⟩ := (hk.2 _).1 hmem
+      cases hg : getOpen (fold name) st.opn with
+      | none => exact absurd hj (getOpen_none hg j)
+      | some j' =>
+        simp only [step, hitem, hg]
+        refine ⟨_, rfl, ⟨hk.1.erase _, ?_⟩, trivial⟩
+        intro k'
+        rw [hk.1.mem_erase_iff, hk.2]
+        constructor
+        · rintro ⟨hne, j, hj⟩; exact ⟨j, mem_delOpen.2 ⟨hj, hne⟩⟩
+        · rintro ⟨j, hj⟩
+          have := mem_delOpen.1 hj
+          exact ⟨this.2, j, this.1⟩
+    · right
+      have hg : getOpen (fold name) st.opn = none := by
+        cases hg : getOpen (fold name) st.opn with
+        | none => rfl
+        | some j => exact absurd ((hk.2 _).2 ⟨j, getOpen_some hg⟩) hmem
+      exact ⟨by simp only [step, hitem, hg], handle_offset_not hmem, name, rfl, hmem⟩
+  | duration len c =>
+    left
+    simp only [markerSeq, List.filterMap_cons, List.filterMap_nil, hitem, markNI, seqOK, seqOp, step, and_true]
+    exact ⟨_, rfl, hk⟩
+  | plain c =>
+    left
+    simp only [markerSeq, List.filterMap_cons, List.filterMap_nil, hitem, markNI, seqOK, seqOp, step, and_true]
+    exact ⟨_, rfl, hk⟩
+  | inset nm c =>
+    left
+    simp only [markerSeq, List.filterMap_cons, List.filterMap_nil, hitem, markNI, seqOK, seqOp, step, and_true]
+    exact ⟨_, rfl, hk⟩
+
+theorem markerSeq_cons (a : Act) (rest : List Act) : markerSeq (a :: rest) = markerSeq [a] ++ markerSeq rest := by
+  simp only [markerSeq, List.filterMap_cons, List.filterMap_nil]
+  cases markNI a.item <;> rfl
+
+/-- the scan succeeds iff every Offset finds its folded name in `onset_dict`; it can fail in no other way -/
+theorem run_iff (fold : Str → Str) (ts : List Int) (acts : List Act) (st : State) (op : List Str)
+    (hk : Keys op st.opn) :
+    ((∃ st', run fold ts st acts = .ok st') ↔ seqOK fold op (markerSeq acts)) ∧
+    (∀ e, run fold ts st acts = .error e → e = .unmatchedOffset) := by
+  induction acts generalizing st op with
+  | nil => simp [run, markerSeq, seqOK]
+  | cons a rest ih =>
+    rw [markerSeq_cons, seqOK_append]
+    simp only [run]
+    rcases step_keys fold ts st op a hk with ⟨st1, h1, hk1, hok⟩ | ⟨h1, hno, _⟩
+    · simp only [h1]
+      have := ih st1 _ hk1
+      exact ⟨⟨fun h => ⟨hok, this.1.1 h⟩, fun h => this.1.2 h.2⟩, this.2⟩
+    · simp only [h1]
+      refine ⟨⟨fun hex => (by obtain ⟨_, h⟩ := hex; cases h), fun h => absurd h.1 hno⟩, fun e h => ?_⟩
+      injection h with h; exact h.symm
+
+theorem not_seqOK_iff (fold : Str → Str) (ms : List Temporal.Marker) (op : List Str) :
+    ¬ seqOK fold op ms ↔ ∃ pre m post, ms = pre ++ m :: post ∧ seqOK fold op pre ∧
+      (Temporal.handle (seqOp fold op pre) m.kind (fold m.name)).2 ≠ none := by
+  induction ms generalizing op with
+  | nil => simp [seqOK]
+  | cons m rest ih =>
+    simp only [seqOK]
+    constructor
+    · intro h
+      by_cases hA : (Temporal.handle op m.kind (fold m.name)).2 = none
+      · have hB : ¬ seqOK fold (Temporal.handle op m.kind (fold m.name)).1 rest := fun hB => h ⟨hA, hB⟩
+        obtain ⟨pre, m', post, e, h1, h2⟩ := (ih _).1 hB
+        exact ⟨m :: pre, m', post, by rw [e]; rfl, ⟨hA, h1⟩, h2⟩
+      · exact ⟨[], m, rest, rfl, trivial, hA⟩
+    · rintro ⟨pre, m', post, e, h1, h2⟩ ⟨hA, hB⟩
+      cases pre with
+      | nil =>
+        simp only [List.nil_append, List.cons.injEq] at e
+        obtain ⟨rfl, _⟩ := e
+        exact h2 hA
+      | cons p ps =>
+        simp only [List.cons_append, List.cons.injEq] at e
+        obtain ⟨rfl, e⟩ := e
+        exact (ih _).2 ⟨ps, m', post, e, h1.2, h2⟩ hB
+
+/-- **files the validator rejects.** With non-decreasing onsets the constructor raises iff the scan meets an
+Offset group whose folded name is not open at that point — its last earlier Onset/Offset marker is not an Onset
+(C10's OFFSET_BEFORE_ONSET) — and then with `KeyError` (`Reject.unmatchedOffset`). The validator's other
+temporal errors (a name twice in one time point, an Inset without Onset) do not stop the manager. -/
+theorem rejects_iff_unmatched_offset (fold : Str → Str) (rows : List Row)
+    (hord : nonDecreasing (rows.map (·.time)) = true) :
+    (build fold rows = .error .unmatchedOffset ↔
+      ∃ pre m post, markerSeq (history rows) = pre ++ m :: post ∧ m.kind = .offset ∧ seqOK fold [] pre ∧
+        lastNI fold (fold m.name) pre ≠ some .onset) ∧
+    (∀ e, build fold rows = .error e → e = .unmatchedOffset) := by
+  have hk0 : Keys [] (⟨[], []⟩ : State).opn := ⟨List.nodup_nil, by simp⟩
+  have hr := run_iff fold ((frame rows).map (·.time)) (history rows) ⟨[], []⟩ [] hk0
+  have hbuild : ∀ e, build fold rows = .error e ↔
+      run fold ((frame rows).map (·.time)) ⟨[], []⟩ (history rows) = .error e := by
+    intro e
+    simp only [build, hord, if_true]
+    cases hrun : run fold ((frame rows).map (·.time)) ⟨[], []⟩ (history rows) <;> simp
+  refine ⟨?_, fun e he => hr.2 e ((hbuild e).1 he)⟩
+  rw [hbuild]
+  have hfail : run fold ((frame rows).map (·.time)) ⟨[], []⟩ (history rows) = .error .unmatchedOffset ↔
+      ¬ seqOK fold [] (markerSeq (history rows)) := by
+    rw [← hr.1]
+    cases hrun : run fold ((frame rows).map (·.time)) ⟨[], []⟩ (history rows) with
+    | ok st => simp
+    | error e => simp [hr.2 e hrun]
+  rw [hfail, not_seqOK_iff]
+  have hkinds : ∀ m ∈ markerSeq (history rows), m.kind = .onset ∨ m.kind = .offset := by
+    intro m hm
+    simp only [markerSeq, List.mem_filterMap] at hm
+    obtain ⟨a, _, ha⟩ := hm
+    cases hi : a.item <;> simp [hi, markNI] at ha <;> subst ha <;> simp
+  constructor
+  · rintro ⟨pre, m, post, e, h1, h2⟩
+    refine ⟨pre, m, post, e, ?_, h1, ?_⟩
+    · rcases hkinds m (by rw [e]; simp) with h | h
+      · rw [h] at h2; simp [Temporal.handle] at h2
+      · exact h
+    · intro hl
+      have hm := (seqOp_iff_last_onset fold (fold m.name) pre [] List.nodup_nil h1).1.2 (Or.inl hl)
+      rcases hkinds m (by rw [e]; simp) with h | h
+      · rw [h] at h2; simp [Temporal.handle] at h2
+      · rw [h, handle_offset_mem hm] at h2; exact h2 rfl
+  · rintro ⟨pre, m, post, e, hoff, h1, h2⟩
+    refine ⟨pre, m, post, e, h1, ?_⟩
+    rw [hoff]
+    apply handle_offset_not
+    intro hm
+    rcases (seqOp_iff_last_onset fold (fold m.name) pre [] List.nodup_nil h1).1.1 hm with h | h
+    · exact h2 h
+    · simp at h
+
+/-- the validator's other temporal errors do not stop the manager: the same name twice at one time point
+(the second Onset ends the first at once), an Inset without Onset (it stays in the row) -/
+example : Temporal.run id [] 0 ((Temporal.timePoints
+      ([⟨8, [.onset ['a'] 1, .onset ['a'] 2, .inset ['b'] 3], []⟩].map toT)).map (·.markers)) ≠ [] ∧
+    (build id [⟨8, [.onset ['a'] 1, .onset ['a'] 2, .inset ['b'] 3], []⟩]).toOption.map
+      (fun b => (b.procs.map fun p => (p.start, p.stop, p.content), b.rem)) =
+      some ([(0, some 0, 1), (0, some 1, 2)], [[3]]) := by
+  constructor
+  · decide
+  · rfl
+
+example : build id [⟨8, [.offset ['a']], []⟩] = .error .unmatchedOffset := by rfl
+
+/-! ## Duration and Delay in terms of times -/
+
+/-- **Duration, by times.** The process of a Duration group of length `d` started at time `t` is in the context
+of exactly the time points strictly between `t` and `t + d` (first rows: `t < τ < t + d`); the later rows of a
+merged time point also show it at `τ = t` (`t ≤ τ < t + d`, the inclusive reading of `merged_rows`). -/
+theorem duration_context_interval (fold : Str → Str) (rows : List Row) (b : Built)
+    (h : build fold rows = .ok b) (a : Act) (len : Int) (c : Nat) (ha : a ∈ history rows)
+    (hitem : a.item = .duration len c) :
+    ∃ p ∈ b.procs, p.start = a.idx ∧ p.content = c ∧
+      (∀ i τ, First b.ts i τ → (inContext i p = true ↔ a.time < τ ∧ τ < a.time + len)) ∧
+      (∀ i τ, b.ts[i]? = some τ → ¬ First b.ts i τ → (inContext i p = true ↔ a.time ≤ τ ∧ τ < a.time + len)) := by
+  obtain ⟨hs, hf⟩ := build_facts h
+  obtain ⟨p, hp, h1, h2, h3, _⟩ := boundaries_duration_exact fold rows b h a len c ha hitem
+  refine ⟨p, hp, h1, h2, fun i τ hi => ?_, fun i τ hi hn => ?_⟩
+  · rw [h3 i τ hi.1, first_lt_iff hs (hf a ha) hi]
+  · rw [h3 i τ hi, first_lt_iff_later hs (hf a ha) hi hn]
+
+theorem mem_sortRows (x : FRow) (l : List FRow) : x ∈ sortRows l ↔ x ∈ l := by
+  induction l with
+  | nil => simp [sortRows]
+  | cons y ys ih => simp only [sortRows, mem_insertRow, ih, List.mem_cons]
+
+theorem mem_points {l : List FRow} {fr : FRow} {it : Item} (hfr : fr ∈ l) (hit : it ∈ fr.items) :
+    ∃ p ∈ points l, p.1 = fr.time ∧ it ∈ p.2 := by
+  induction l with
+  | nil => simp at hfr
+  | cons x xs ih =>
+    simp only [points]
+    rcases List.mem_cons.1 hfr with rfl | hfr
+    · cases hp : points xs with
+      | nil => exact ⟨_, List.mem_cons_self .., rfl, hit⟩
+      | cons q ys =>
+        obtain ⟨t, its⟩ := q
+        simp only
+        split
+        · exact ⟨_, List.mem_cons_self .., rfl, List.mem_append_left _ hit⟩
+        · exact ⟨_, List.mem_cons_self .., rfl, hit⟩
+    · obtain ⟨p, hp, h1, h2⟩ := ih hfr
+      cases hpx : points xs with
+      | nil => rw [hpx] at hp; simp at hp
+      | cons q ys =>
+        obtain ⟨t, its⟩ := q
+        rw [hpx] at hp
+        simp only
+        split
+        · rename_i e
+          rcases List.mem_cons.1 hp with rfl | hp
+          · exact ⟨_, List.mem_cons_self .., by simpa [e] using h1, List.mem_append_right _ h2⟩
+          · exact ⟨p, List.mem_cons_of_mem _ hp, h1, h2⟩
+        · exact ⟨p, List.mem_cons_of_mem _ hp, h1, h2⟩
+
+theorem mem_firstRows {prev : Option Int} {l : List FRow} {x : FRow} (h : x ∈ firstRows prev l) : x ∈ l := by
+  induction l generalizing prev with
+  | nil => simp [firstRows] at h
+  | cons y ys ih =>
+    simp only [firstRows] at h
+    split at h
+    · exact List.mem_cons_of_mem _ (ih h)
+    · rcases List.mem_cons.1 h with rfl | h
+      · exact List.mem_cons_self ..
+      · exact List.mem_cons_of_mem _ (ih h)
+
+theorem mem_actsFrom {k : Nat} {M : List FRow} {row : FRow} {it : Item} (hrow : row ∈ M)
+    (hit : it ∈ row.items) (hk : isMarker it = true ∨ isDuration it = true) :
+    ∃ a ∈ actsFrom k M, a.item = it ∧ a.time = row.time := by
+  induction M generalizing k with
+  | nil => simp at hrow
+  | cons r rs ih =>
+    simp only [actsFrom, List.mem_append]
+    rcases List.mem_cons.1 hrow with rfl | hrow
+    · refine ⟨⟨k, row.time, it⟩, Or.inl ?_, rfl, rfl⟩
+      simp only [rowActs, List.mem_map, List.mem_append, List.mem_filter]
+      rcases hk with hk | hk
+      · exact ⟨it, Or.inl ⟨hit, hk⟩, rfl⟩
+      · exact ⟨it, Or.inr ⟨hit, hk⟩, rfl⟩
+    · obtain ⟨a, ha, h⟩ := ih (k := k + 1) hrow
+      exact ⟨a, Or.inr ha, h⟩
+
+theorem frame_item_in_history (rows : List Row) (fr : FRow) (it : Item) (hfr : fr ∈ splitRows rows)
+    (hit : it ∈ fr.items) (hk : isMarker it = true ∨ isDuration it = true) :
+    ∃ a ∈ history rows, a.item = it ∧ a.time = fr.time := by
+  have hfr' : fr ∈ frame rows := (mem_sortRows fr _).2 hfr
+  obtain ⟨p, hp, h1, h2⟩ := mem_points hfr' hit
+  rw [← firstRows_merge_none, List.mem_map] at hp
+  obtain ⟨row, hrow, e⟩ := hp
+  have hrow' := mem_firstRows hrow
+  have e1 : row.time = p.1 := congrArg Prod.fst e
+  have e2 : row.items = p.2 := congrArg Prod.snd e
+  obtain ⟨a, ha, h3, h4⟩ := mem_actsFrom (k := 0) hrow' (by rw [e2]; exact h2) hk
+  exact ⟨a, ha, h3, by rw [h4, e1, h1]⟩
+
+theorem mem_delayRows {rows : List Row} {r : Row} {d : Int} {it : Item} (hr : r ∈ rows)
+    (hd : (d, it) ∈ r.delayed) : (⟨r.time + d, [it]⟩ : FRow) ∈ delayRows rows := by
+  induction rows with
+  | nil => simp at hr
+  | cons x xs ih =>
+    simp only [delayRows, List.mem_append, List.mem_map]
+    rcases List.mem_cons.1 hr with rfl | hr
+    · exact Or.inl ⟨(d, it), hd, rfl⟩
+    · exact Or.inr (ih hr)
+
+/-- **Delay.** A temporal group of a row acts at the row's own time; a group inside a top-level Delay group
+acts at the row's time plus the delay — that is the time the scan, the processes' starts and `specProcs` see. -/
+theorem delay_shifts_start (rows : List Row) (r : Row) (hr : r ∈ rows) :
+    (∀ it ∈ r.items, (isMarker it = true ∨ isDuration it = true) →
+      ∃ a ∈ history rows, a.item = it ∧ a.time = r.time) ∧
+    (∀ d it, (d, it) ∈ r.delayed → (isMarker it = true ∨ isDuration it = true) →
+      ∃ a ∈ history rows, a.item = it ∧ a.time = r.time + d) := by
+  constructor
+  · intro it hit hk
+    have : (⟨r.time, r.items⟩ : FRow) ∈ splitRows rows := by
+      simp only [splitRows, ownRows, List.mem_append, List.mem_map]
+      exact Or.inl ⟨r, hr, rfl⟩
+    exact frame_item_in_history rows _ it this hit hk
+  · intro d it hd hk
+    have : (⟨r.time + d, [it]⟩ : FRow) ∈ splitRows rows := by
+      simp only [splitRows, List.mem_append]
+      exact Or.inr (mem_delayRows hr hd)
+    exact frame_item_in_history rows _ it this (by simp) hk
+
+/-! ## names are compared after case folding -/
+
+def renItem (ren : Str → Str) : Item → Item
+  | .onset n c => .onset (ren n) c
+  | .offset n => .offset (ren n)
+  | .inset n c => .inset (ren n) c
+  | .duration l c => .duration l c
+  | .plain c => .plain c
+
+def renRow (ren : Str → Str) (r : Row) : Row :=
+  ⟨r.time, r.items.map (renItem ren), r.delayed.map fun di => (di.1, renItem ren di.2)⟩
+def renF (ren : Str → Str) (r : FRow) : FRow := ⟨r.time, r.items.map (renItem ren)⟩
+def renAct (ren : Str → Str) (a : Act) : Act := ⟨a.idx, a.time, renItem ren a.item⟩
+
+theorem splitRows_ren (ren : Str → Str) (rows : List Row) :
+    splitRows (rows.map (renRow ren)) = (splitRows rows).map (renF ren) := by
+  have h2 : delayRows (rows.map (renRow ren)) = (delayRows rows).map (renF ren) := by
+    induction rows with
+    | nil => rfl
+    | cons r rs ih => simp [delayRows, ih, renRow, renF, Function.comp_def]
+  have h1 : ownRows (rows.map (renRow ren)) = (ownRows rows).map (renF ren) := by
+    simp [ownRows, renRow, renF, Function.comp_def]
+  simp [splitRows, h1, h2]
+
+theorem insertRow_ren (ren : Str → Str) (x : FRow) (l : List FRow) :
+    insertRow (renF ren x) (l.map (renF ren)) = (insertRow x l).map (renF ren) := by
+  induction l with
+  | nil => rfl
+  | cons y ys ih =>
+    simp only [List.map_cons, insertRow]
+    have : (renF ren x).time = x.time ∧ (renF ren y).time = y.time := ⟨rfl, rfl⟩
+    rw [this.1, this.2]
+    split
+    · rfl
+    · simp [ih]
+
+theorem sortRows_ren (ren : Str → Str) (l : List FRow) :
+    sortRows (l.map (renF ren)) = (sortRows l).map (renF ren) := by
+  induction l with
+  | nil => rfl
+  | cons x xs ih => simp only [List.map_cons, sortRows, ih, insertRow_ren]
+
+theorem groupItems_ren (ren : Str → Str) (t : Int) (l : List FRow) :
+    groupItems t (l.map (renF ren)) = (groupItems t l).map (renItem ren) := by
+  induction l with
+  | nil => rfl
+  | cons x xs ih =>
+    simp only [List.map_cons, groupItems]
+    have : (renF ren x).time = x.time := rfl
+    rw [this]
+    split
+    · simp [ih, renF]
+    · rfl
+
+theorem merge_ren (ren : Str → Str) (prev : Option Int) (l : List FRow) :
+    merge prev (l.map (renF ren)) = (merge prev l).map (renF ren) := by
+  induction l generalizing prev with
+  | nil => rfl
+  | cons x xs ih =>
+    simp only [List.map_cons, merge, ih, groupItems_ren]
+    have : (renF ren x).time = x.time := rfl
+    rw [this]
+    congr 1
+    simp only [renF]
+    congr 1
+    split <;> simp
+
+theorem rowActs_ren (ren : Str → Str) (i : Nat) (r : FRow) :
+    rowActs i (renF ren r) = (rowActs i r).map (renAct ren) := by
+  have hm : ∀ it, isMarker (renItem ren it) = isMarker it := by intro it; cases it <;> rfl
+  have hd : ∀ it, isDuration (renItem ren it) = isDuration it := by intro it; cases it <;> rfl
+  have f1 : ∀ l : List Item, (l.map (renItem ren)).filter isMarker = (l.filter isMarker).map (renItem ren) := by
+    intro l; induction l with
+    | nil => rfl
+    | cons x xs ih => simp only [List.map_cons, List.filter_cons, hm, ih]; split <;> rfl
+  have f2 : ∀ l : List Item, (l.map (renItem ren)).filter isDuration = (l.filter isDuration).map (renItem ren) := by
+    intro l; induction l with
+    | nil => rfl
+    | cons x xs ih => simp only [List.map_cons, List.filter_cons, hd, ih]; split <;> rfl
+  simp [rowActs, renF, f1, f2, renAct, Function.comp_def]
+
+theorem actsFrom_ren (ren : Str → Str) (k : Nat) (l : List FRow) :
+    actsFrom k (l.map (renF ren)) = (actsFrom k l).map (renAct ren) := by
+  induction l generalizing k with
+  | nil => rfl
+  | cons x xs ih => simp only [List.map_cons, actsFrom, rowActs_ren, ih, List.map_append]
+
+theorem step_ren (fold ren : Str → Str) (hren : ∀ n, fold (ren n) = fold n) (ts : List Int) (st : State)
+    (a : Act) : step fold ts st (renAct ren a) = step fold ts st a := by
+  cases hi : a.item <;> simp [step, renAct, renItem, hi, hren]
+
+theorem run_ren (fold ren : Str → Str) (hren : ∀ n, fold (ren n) = fold n) (ts : List Int) (acts : List Act)
+    (st : State) : run fold ts st (acts.map (renAct ren)) = run fold ts st acts := by
+  induction acts generalizing st with
+  | nil => rfl
+  | cons a rest ih =>
+    simp only [List.map_cons, run, step_ren fold ren hren]
+    cases step fold ts st a with
+    | ok st1 => exact ih st1
+    | error e => rfl
+
+theorem plainOf_ren (ren : Str → Str) (its : List Item) : plainOf (its.map (renItem ren)) = plainOf its := by
+  induction its with
+  | nil => rfl
+  | cons x xs ih => cases x <;> simp [plainOf, renItem, ih]
+
+/-- **case-insensitive.** Respelling the definition names of the file without changing their folded form
+(`Def/Cue` / `def/CUE`) changes nothing the manager reports: same onsets, same processes with the same extents,
+hence the same `base`, `contexts` and remainder — and the same rejection. (Counterpart of C10's
+`case_insensitive` for the validator; with `context_eq_validator_open_set` both keep the same open names.) -/
+theorem context_case_insensitive (fold ren : Str → Str) (hren : ∀ n, fold (ren n) = fold n) (rows : List Row) :
+    build fold (rows.map (renRow ren)) = build fold rows := by
+  have hframe : frame (rows.map (renRow ren)) = (frame rows).map (renF ren) := by
+    simp only [frame, splitRows_ren, sortRows_ren]
+  have hts : (frame (rows.map (renRow ren))).map (·.time) = (frame rows).map (·.time) := by
+    rw [hframe, List.map_map]; rfl
+  have hhist : history (rows.map (renRow ren)) = (history rows).map (renAct ren) := by
+    simp only [history, hframe, merge_ren, actsFrom_ren]
+  have htimes : (rows.map (renRow ren)).map (·.time) = rows.map (·.time) := by
+    rw [List.map_map]; rfl
+  have hrem : (merge none (frame (rows.map (renRow ren)))).map (fun r => plainOf r.items) =
+      (merge none (frame rows)).map (fun r => plainOf r.items) := by
+    rw [hframe, merge_ren, List.map_map]
+    apply List.map_congr_left
+    intro r _
+    simp [renF, plainOf_ren]
+  simp only [build, htimes, hts, hhist, run_ren fold ren hren, hrem]
+
 end HedVerif.C20
